@@ -93,6 +93,72 @@ type compiler struct {''')])]),
 	return l.input[position:l.position]
 }''')])]),
  ("comments-and-blank-lines", [("parser/parser.go", [("func (p *parser) parseCommentLiteral() ast.Expression {\n", "// parseCommentLiteral skips a comment tag\n\nfunc (p *parser) parseCommentLiteral() ast.Expression {\n\n")])]),
+ ("truncate-rewritten", [("helpers/text/truncate.go", [(
+"""	// keep the first size-len(runesTrail) characters of s, cutting the
+	// original bytes at a character boundary
+	keep := size - len(runesTrail)
+	n := 0
+	for i := range s {
+		if n == keep {
+			return s[:i] + trail
+		}
+		n++
+	}
+	return s
+}""",
+"""	// byte offset of character number size-len(runesTrail): that is where s is cut
+	cut, seen := len(s), 0
+	for off := range s {
+		if seen == size-len(runesTrail) {
+			cut = off
+			break
+		}
+		seen++
+	}
+	if cut == len(s) {
+		return s
+	}
+	return s[:cut] + trail
+}""")])]),
+ ("rename-parameter", [("compiler.go", [(
+"""func (c *compiler) evalIfExpression(node *ast.IfExpression) (interface{}, error) {
+	con, err := c.evalExpression(node.Condition)
+	if err != nil && !isUnknownIdentifier(err, node.Condition) {
+		return nil, err
+	}
+
+	if c.isTruthy(con) {
+		return c.evalBlockStatement(node.Block)
+	}
+
+	return c.evalElseAndElseIfExpressions(node)
+}""",
+"""func (c *compiler) evalIfExpression(ifx *ast.IfExpression) (interface{}, error) {
+	con, err := c.evalExpression(ifx.Condition)
+	if err != nil && !isUnknownIdentifier(err, ifx.Condition) {
+		return nil, err
+	}
+
+	if c.isTruthy(con) {
+		return c.evalBlockStatement(ifx.Block)
+	}
+
+	return c.evalElseAndElseIfExpressions(ifx)
+}""")])]),
+ ("elseif-index-loop", [("compiler.go", [(
+"""	for _, eiNode := range node.ElseIf {
+		eiCon, err := c.evalExpression(eiNode.Condition)""",
+"""	for k := 0; k < len(node.ElseIf); k++ {
+		eiNode := node.ElseIf[k]
+		eiCon, err := c.evalExpression(eiNode.Condition)""")])]),
+ ("between-reordered", [("helpers/iterators/between.go", [(
+"""	if a >= b {
+		return &ranger{done: true}
+	}""",
+"""	if b <= a {
+		// nothing lies strictly between
+		return &ranger{done: true}
+	}""")])]),
 ]
 def main():
     out='/verif/selftest/harmless'
